@@ -1,7 +1,8 @@
 // C10 — EVM conformance: the in-tree EVM (eth/core/vm on eth/core/state) against
 // upstream go-ethereum v1.8.27 linked into the same binary (DESIGN §4.5, §5 C10,
 // §6.5).  Three exhaustively enumerated families of transactions; oracle: the
-// canonical outcome records of the two sides are equal.
+// canonical outcome records of the two sides are equal (class, return data,
+// logs, self-destruct set, accounts/nonces/balances/code/storage).
 //
 // Documented deviations are neutralised by construction of the harness, never
 // by exceptions in the comparison:
@@ -10,11 +11,11 @@
 //   - the GAS opcode only ever appears as the gas operand of a CALL-family
 //     instruction (the reference then forwards 63/64 of ample gas, the in-tree
 //     code ignores the operand);
-//   - a case is excluded (and counted) when the reference does more than 10^7 gas
-//     worth of instruction work (loops that only a gas limit ends: that limit is
+//   - a case is excluded (and counted) when the reference does more than the work
+//     limit of instruction work (loops that only a gas limit ends: that limit is
 //     per call on the reference and per transaction in-tree), or when a step that
 //     would fit into the in-tree budget fails for lack of gas on the reference
-//     (caller-supplied-gas starvation);
+//     (caller-supplied-gas starvation, e.g. at the bottom of a 1024-deep recursion);
 //   - address 0xfe (the governance precompile) is never called or referenced.
 package main
 
@@ -31,6 +32,8 @@ import (
 
 	"verif/core"
 )
+
+// ---------------------------------------------------------------- statistics
 
 type famStats struct {
 	mu            sync.Mutex
@@ -86,95 +89,6 @@ func (s *famStats) summary() map[string]interface{} {
 	}
 }
 
-type pairResult struct {
-	excluded string
-	ref, it  *outcome
-	differs  string
-	site     string
-}
-
-// sideCtx: per-goroutine caches of the two harness sides (committed pre-states).
-type sideCtx struct {
-	it sideCtx_IT
-	rf sideCtx_RF
-}
-
-var ctxPool = sync.Pool{New: func() interface{} { return &sideCtx{} }}
-
-// runPair executes one case on both EVMs and reads both post-states at the union
-// of the pre-state and of every location either side wrote.
-func runPair(k *txCase) pairResult {
-	c := ctxPool.Get().(*sideCtx)
-	defer ctxPool.Put(c)
-	var r pairResult
-	var rr *run_RF
-	var ri *run_IT
-	if p, v, _ := core.Try(func() { rr = start_RF(&c.rf, k, k.workLimit()) }); p {
-		r.excluded = "reference-panicked"
-		r.site = core.FirstLine(v)
-		return r
-	}
-	r.ref = rr.out
-	switch {
-	case r.ref.Meter.Cancelled:
-		r.excluded = "reference-work-above-limit"
-		return r
-	case r.ref.Meter.Starved:
-		r.excluded = "reference-frame-starved-of-caller-supplied-gas"
-		return r
-	case strings.HasPrefix(r.ref.Class, "harness-error"):
-		core.Fatal("reference state construction failed: %s", r.ref.Class)
-	}
-	if p, v, st := core.Try(func() { ri = start_IT(&c.it, k, 4*k.workLimit()) }); p {
-		r.it = &outcome{Class: "panic", Panic: core.FirstLine(v)}
-		r.differs = "panic"
-		r.site = core.PanicSite(st)
-		return r
-	}
-	r.it = ri.out
-	if strings.HasPrefix(r.it.Class, "harness-error") {
-		core.Fatal("in-tree state construction failed: %s", r.it.Class)
-	}
-	if r.it.Meter.Cancelled {
-		r.differs = "in-tree-does-4x-the-work-bound-of-the-reference"
-		return r
-	}
-	locs := k.preLocations()
-	locs.merge(r.ref.w)
-	locs.merge(r.it.w)
-	if p, v, _ := core.Try(func() { rr.finish(locs) }); p {
-		r.excluded = "reference-panicked"
-		r.site = core.FirstLine(v)
-		return r
-	}
-	if p, v, st := core.Try(func() { ri.finish(locs) }); p {
-		r.it.Panic = core.FirstLine(v)
-		r.differs = "panic"
-		r.site = core.PanicSite(st)
-		return r
-	}
-	r.differs = firstDifference(r.ref, r.it)
-	return r
-}
-
-// digest of a record with code bytes replaced by their length (programs differ
-// in their own code; that alone must not make outcomes "distinct")
-func digest(o *outcome) uint64 {
-	h := fnv.New64a()
-	w := func(s string) { h.Write([]byte(s)); h.Write([]byte{0xff, 0}) }
-	w(o.Class)
-	w(o.Ret)
-	w(o.Logs)
-	w(o.Suicides)
-	for _, a := range o.accts {
-		h.Write(a.Addr[:])
-		w(fmt.Sprint(a.Nonce, len(a.Code)))
-		w(a.Balance)
-		w(a.Storage)
-	}
-	return h.Sum64()
-}
-
 func (s *famStats) account(r *pairResult) {
 	s.Cases++
 	if r.excluded != "" {
@@ -201,33 +115,202 @@ func (s *famStats) account(r *pairResult) {
 	}
 }
 
-func detail(k *txCase, r *pairResult) string {
-	return fmt.Sprintf("%s [config=%s]: records differ in %s\n   reference: %s\n   in-tree:   %s", k.Label, k.Mode, r.differs, r.ref.render(), r.it.render())
+// digest of a record with code bytes replaced by their length (programs differ
+// in their own code; that alone must not make outcomes "distinct")
+func digest(o *outcome) uint64 {
+	h := fnv.New64a()
+	w := func(s string) { h.Write([]byte(s)); h.Write([]byte{0xff, 0}) }
+	w(o.Class)
+	w(o.Ret)
+	w(o.Logs)
+	w(o.Suicides)
+	for _, a := range o.accts {
+		h.Write(a.Addr[:])
+		w(fmt.Sprint(a.Nonce, len(a.Code)))
+		w(a.Balance)
+		w(a.Storage)
+	}
+	return h.Sum64()
 }
 
-func sigOf(k *txCase, r *pairResult) map[string]string {
-	sig := map[string]string{}
-	for a, b := range k.Sig {
-		sig[a] = b
+// ---------------------------------------------------------------- one case on both sides
+
+type pairResult struct {
+	excluded string
+	ref, it  *outcome
+	differs  string
+	site     string
+}
+
+// sideCtx: per-goroutine caches of the two harness sides (committed pre-states).
+type sideCtx struct {
+	it sideCtx_IT
+	rf sideCtx_RF
+}
+
+var ctxPool = sync.Pool{New: func() interface{} { return &sideCtx{} }}
+
+// runPair executes one case on both EVMs and reads both post-states at the union
+// of the pre-state and of every location either side wrote.  With traces != nil
+// both instruction traces are recorded as well.
+func runPair(k *txCase, traces *[2][]stepRec) pairResult {
+	c := ctxPool.Get().(*sideCtx)
+	defer ctxPool.Put(c)
+	var r pairResult
+	var rr *run_RF
+	var ri *run_IT
+	var recR, recI *[]stepRec
+	if traces != nil {
+		recR, recI = &traces[0], &traces[1]
 	}
+	if p, v, _ := core.Try(func() { rr = start_RF(&c.rf, k, k.workLimit(), recR) }); p {
+		r.excluded = "reference-panicked"
+		r.site = core.FirstLine(v)
+		return r
+	}
+	r.ref = rr.out
 	switch {
-	case r.differs == "panic" || r.it == nil || r.ref == nil:
-		sig["symptom"] = "panic"
-	case r.it.Meter.Cancelled:
-		sig["symptom"] = "runaway"
-	default:
-		sig["symptom"] = symptom(r.ref, r.it)
+	case r.ref.Meter.Cancelled:
+		r.excluded = "reference-work-above-limit"
+		return r
+	case r.ref.Meter.Starved:
+		r.excluded = "reference-frame-starved-of-caller-supplied-gas"
+		return r
+	case strings.HasPrefix(r.ref.Class, "harness-error"):
+		core.Fatal("reference state construction failed: %s", r.ref.Class)
 	}
-	if r.site != "" {
-		sig["site"] = r.site
+	if p, v, st := core.Try(func() { ri = start_IT(&c.it, k, 4*k.workLimit(), recI) }); p {
+		r.it = &outcome{Class: "panic", Panic: core.FirstLine(v)}
+		r.differs = "panic"
+		r.site = core.PanicSite(st)
+		return r
 	}
-	return sig
+	r.it = ri.out
+	if strings.HasPrefix(r.it.Class, "harness-error") {
+		core.Fatal("in-tree state construction failed: %s", r.it.Class)
+	}
+	if r.it.Meter.Cancelled {
+		r.differs = "in-tree-exceeds-4x-the-work-limit"
+		return r
+	}
+	locs := k.preLocations()
+	locs.merge(r.ref.w)
+	locs.merge(r.it.w)
+	if p, v, _ := core.Try(func() { rr.finish(locs) }); p {
+		r.excluded = "reference-panicked"
+		r.site = core.FirstLine(v)
+		return r
+	}
+	if p, v, st := core.Try(func() { ri.finish(locs) }); p {
+		r.it.Panic = core.FirstLine(v)
+		r.differs = "panic"
+		r.site = core.PanicSite(st)
+		return r
+	}
+	r.differs = firstDifference(r.ref, r.it)
+	return r
+}
+
+// ---------------------------------------------------------------- findings
+
+type finding struct {
+	sig    map[string]string
+	k      *txCase
+	detail string
+	size   int
+	cases  int64
 }
 
 type driver struct {
-	run     *core.Run
-	samples *core.Sampler
-	n       int64
+	run      *core.Run
+	samples  *core.Sampler
+	n        int64
+	fmu      sync.Mutex
+	findings map[string]*finding
+}
+
+func caseSize(k *txCase) int {
+	n := len(k.Input)
+	for _, a := range k.Pre {
+		n += len(a.Code)
+	}
+	return n
+}
+
+func sigString(sig map[string]string) string {
+	ks := make([]string, 0, len(sig))
+	for k := range sig {
+		ks = append(ks, k)
+	}
+	sort.Strings(ks)
+	var b strings.Builder
+	for _, k := range ks {
+		b.WriteString(k + "=" + sig[k] + ";")
+	}
+	return b.String()
+}
+
+// signature of a disagreement: the instruction whose effect differs first
+// between the two instruction traces (found by re-running the case with step
+// recording) and the kind of frame it ran in; falls back to the case shape and
+// the symptom when the traces are identical.
+func (d *driver) signature(k *txCase, r *pairResult) (map[string]string, string) {
+	sig := map[string]string{"config": k.Mode}
+	if r.differs == "panic" {
+		sig["culprit"] = "panic"
+		sig["site"] = r.site
+		return sig, "in-tree EVM panicked: " + r.it.Panic
+	}
+	if r.it != nil && r.it.Meter.Cancelled {
+		sig["culprit"] = "runaway"
+		sig["family"] = k.Family
+		return sig, "in-tree EVM did more than 4x the work limit while the reference stayed below the limit"
+	}
+	var tr [2][]stepRec
+	runPair(k, &tr)
+	op, depth, ok := culprit(tr[0], tr[1])
+	sym := symptom(r.ref, r.it)
+	if ok {
+		sig["culprit"] = opTable[op].name
+		sig["frame"] = "top"
+		if depth > 1 {
+			sig["frame"] = "nested"
+		}
+		return sig, fmt.Sprintf("first divergence of the instruction traces: effect of %s at call depth %d; symptom: %s", opTable[op].name, depth, sym)
+	}
+	sig["culprit"] = "not-visible-in-trace"
+	sig["symptom"] = sym
+	for a, b := range k.Sig {
+		if _, dup := sig[a]; !dup {
+			sig[a] = b
+		}
+	}
+	return sig, "instruction traces (pc, opcode, stack top, memory) identical; symptom: " + sym
+}
+
+func (d *driver) disagreement(k *txCase, r *pairResult) {
+	sig, why := d.signature(k, r)
+	key := sigString(sig)
+	size := caseSize(k)
+	d.fmu.Lock()
+	defer d.fmu.Unlock()
+	f := d.findings[key]
+	if f == nil {
+		f = &finding{sig: sig, size: 1 << 30}
+		d.findings[key] = f
+	}
+	f.cases++
+	if size < f.size || (size == f.size && k.Label < f.k.Label) {
+		f.size, f.k = size, k
+		refS, itS := "(none)", "(none)"
+		if r.ref != nil {
+			refS = r.ref.render()
+		}
+		if r.it != nil {
+			itS = r.it.render()
+		}
+		f.detail = fmt.Sprintf("%s [family %s, in-tree config %s]: records differ in %s; %s\n   reference: %s\n   in-tree:   %s", k.Label, k.Family, k.Mode, r.differs, why, refS, itS)
+	}
 }
 
 func (d *driver) sample(k *txCase, r *pairResult) {
@@ -243,43 +326,39 @@ func trunc(s string, n int) string {
 	return s
 }
 
-// runCases runs a materialised list of cases in parallel.
+// runCases runs n generated cases in parallel.
 func (d *driver) runCases(n int, gen func(i int) *txCase, st *famStats, perOp map[string]*[2]int64) {
 	var mu sync.Mutex
-	core.Par(n, func(i int) {
-		k := gen(i)
-		r := runPair(k)
+	const chunk = 64
+	core.Par((n+chunk-1)/chunk, func(c int) {
 		loc := newFamStats()
-		loc.account(&r)
+		for i := c * chunk; i < (c+1)*chunk && i < n; i++ {
+			k := gen(i)
+			r := runPair(k, nil)
+			loc.account(&r)
+			if perOp != nil && r.excluded == "" {
+				mu.Lock()
+				e := perOp[k.Sig["op"]]
+				if e == nil {
+					e = &[2]int64{}
+					perOp[k.Sig["op"]] = e
+				}
+				e[0]++
+				if r.ref.Class == "success" {
+					e[1]++
+				}
+				mu.Unlock()
+			}
+			d.sample(k, &r)
+			if r.differs != "" {
+				d.disagreement(k, &r)
+			}
+		}
 		st.merge(loc)
-		if perOp != nil && r.excluded == "" {
-			mu.Lock()
-			e := perOp[k.Sig["op"]]
-			if e == nil {
-				e = &[2]int64{}
-				perOp[k.Sig["op"]] = e
-			}
-			e[0]++
-			if r.ref.Class == "success" {
-				e[1]++
-			}
-			mu.Unlock()
-		}
-		d.sample(k, &r)
-		if r.differs != "" {
-			d.run.Report(sigOf(k, &r), k, detail(k, &r))
-		}
 	})
 }
 
 // ---------------------------------------------------------------- family 2 driver
-
-type f2Fail struct {
-	toks    []int
-	variant int
-	k       *txCase
-	r       pairResult
-}
 
 type f2Result struct {
 	maxLenCompleted int
@@ -292,9 +371,6 @@ type f2Result struct {
 func (d *driver) runFamily2(mode string, maxLen int, deadline time.Time, st *famStats) f2Result {
 	n := len(alphabet)
 	var res f2Result
-	var fmu sync.Mutex
-	fails := map[string]*f2Fail{}
-	key := func(t []int) string { return fmt.Sprint(t) }
 	for L := 1; L <= maxLen; L++ {
 		// chunks: the first min(L,2) tokens fixed
 		fix := 2
@@ -329,17 +405,14 @@ func (d *driver) runFamily2(mode string, maxLen int, deadline time.Time, st *fam
 					toks[i] = int(y % int64(n))
 					y /= int64(n)
 				}
+				code := family2Code(toks)
 				for v := 0; v < 6; v++ {
-					k := family2Case(toks, v, mode)
-					r := runPair(k)
+					k := family2Case(toks, code, v, mode)
+					r := runPair(k, nil)
 					loc.account(&r)
 					d.sample(k, &r)
 					if r.differs != "" {
-						fmu.Lock()
-						if _, ok := fails[key(toks)]; !ok {
-							fails[key(toks)] = &f2Fail{toks: append([]int(nil), toks...), variant: v, k: k, r: r}
-						}
-						fmu.Unlock()
+						d.disagreement(k, &r)
 					}
 				}
 			}
@@ -353,70 +426,19 @@ func (d *driver) runFamily2(mode string, maxLen int, deadline time.Time, st *fam
 		}
 		res.maxLenCompleted = L
 	}
-	// report only minimal disagreeing programs: no program obtained by deleting one
-	// token disagrees as well (those are in the enumerated space, one length down)
-	var keys []string
-	for k := range fails {
-		keys = append(keys, k)
-	}
-	sort.Slice(keys, func(i, j int) bool {
-		a, b := fails[keys[i]], fails[keys[j]]
-		if len(a.toks) != len(b.toks) {
-			return len(a.toks) < len(b.toks)
-		}
-		return keys[i] < keys[j]
-	})
-	for _, kk := range keys {
-		f := fails[kk]
-		minimal := true
-		for del := 0; del < len(f.toks) && len(f.toks) > 1; del++ {
-			sub := append(append([]int{}, f.toks[:del]...), f.toks[del+1:]...)
-			if _, bad := fails[key(sub)]; bad {
-				minimal = false
-				break
-			}
-		}
-		if !minimal {
-			continue
-		}
-		sig := sigOf(f.k, &f.r)
-		sig["tokens"] = tokenClass(f.toks)
-		d.run.Report(sig, f.k, detail(f.k, &f.r))
-	}
 	return res
-}
-
-// tokenClass: the distinct non-PUSH tokens of a program (or its PUSH tokens when there is nothing else).
-func tokenClass(toks []int) string {
-	set := map[string]bool{}
-	for _, t := range toks {
-		if !strings.HasPrefix(alphabet[t].name, "PUSH") {
-			set[alphabet[t].name] = true
-		}
-	}
-	if len(set) == 0 {
-		for _, t := range toks {
-			set[alphabet[t].name] = true
-		}
-	}
-	var l []string
-	for s := range set {
-		l = append(l, s)
-	}
-	sort.Strings(l)
-	return strings.Join(l, "+")
 }
 
 // ---------------------------------------------------------------- main
 
 func determinismProbe(cases []*txCase) {
 	for _, k := range cases {
-		a, b := runPair(k), runPair(k)
+		a, b := runPair(k, nil), runPair(k, nil)
 		if a.excluded != b.excluded || a.differs != b.differs {
 			core.Fatal("harness not deterministic on %s", k.Label)
 		}
 		if a.excluded == "" && a.ref != nil && b.ref != nil {
-			if firstDifference(a.ref, b.ref) != "" || (a.it != nil && b.it != nil && firstDifference(a.it, b.it) != "") {
+			if firstDifference(a.ref, b.ref) != "" || (a.it != nil && b.it != nil && a.differs != "panic" && firstDifference(a.it, b.it) != "") {
 				core.Fatal("EVM run not deterministic on %s", k.Label)
 			}
 		}
@@ -430,33 +452,34 @@ func main() {
 	if revertErr_RF == nil {
 		core.Fatal("reference did not fail on a plain REVERT")
 	}
-	d := &driver{run: run, samples: core.NewSampler(8, run.Seed)}
+	d := &driver{run: run, samples: core.NewSampler(8, run.Seed), findings: map[string]*finding{}}
 
 	if run.ReplayPath != "" {
 		var k txCase
 		if err := run.ReplayCase(&k); err != nil {
 			core.Fatal("cannot load replay: %v", err)
 		}
-		r := runPair(&k)
+		r := runPair(&k, nil)
 		if r.excluded != "" {
 			fmt.Printf("case is excluded: %s\n", r.excluded)
 		} else if r.differs != "" {
-			sig := sigOf(&k, &r)
-			run.Report(sig, &k, detail(&k, &r))
+			d.disagreement(&k, &r)
+			for _, f := range d.findings {
+				run.Report(f.sig, f.k, f.detail)
+			}
 		}
 		run.Finish(nil, nil)
 	}
 
-	// development knobs (never set by vcheck): C10_FAMILIES=1,2,3 restricts the run, C10_CPUPROFILE=<file> profiles it
+	// development knobs (never set by vcheck): C10_FAMILIES=1,2,3 restricts the run,
+	// C10_F2LEN=<n> sets the program length, C10_CPUPROFILE=<file> profiles it
 	want := func(f string) bool {
 		v := os.Getenv("C10_FAMILIES")
 		return v == "" || strings.Contains(","+v+",", ","+f+",")
 	}
 	if pf := os.Getenv("C10_CPUPROFILE"); pf != "" {
-		f, err := os.Create(pf)
-		if err == nil {
+		if f, err := os.Create(pf); err == nil {
 			pprof.StartCPUProfile(f)
-			defer pprof.StopCPUProfile()
 		}
 	}
 	start := time.Now()
@@ -465,11 +488,11 @@ func main() {
 	cov := core.Coverage{}
 	total := newFamStats()
 
-	// ---- family 1
+	// ---- family 1: every opcode byte × operand tuples × {direct, behind a CALL, behind a STATICCALL}
 	type f1Item struct {
-		p      f1Prog
-		static bool
-		mode   string
+		p    f1Prog
+		ctx  string
+		mode string
 	}
 	var f1items []f1Item
 	nonExhaustiveOps := []string{}
@@ -483,18 +506,21 @@ func main() {
 		}
 		for _, p := range progs {
 			for _, m := range modes {
-				f1items = append(f1items, f1Item{p, false, m}, f1Item{p, true, m})
+				for _, ctx := range []string{"direct", "nested", "static"} {
+					f1items = append(f1items, f1Item{p, ctx, m})
+				}
 			}
 		}
 	}
-	gen1 := func(i int) *txCase { return family1Case(f1items[i].p, f1items[i].static, f1items[i].mode) }
+	gen1 := func(i int) *txCase { return family1Case(f1items[i].p, f1items[i].ctx, f1items[i].mode) }
 	determinismProbe([]*txCase{gen1(0), gen1(len(f1items) / 2), gen1(len(f1items) - 1)})
 	st1 := newFamStats()
 	perOp := map[string]*[2]int64{}
+	n1 := len(f1items)
 	if !want("1") {
-		f1items = nil
+		n1 = 0
 	}
-	d.runCases(len(f1items), gen1, st1, perOp)
+	d.runCases(n1, gen1, st1, perOp)
 	var never []string
 	for c := 0; c < 256; c++ {
 		if !opTable[c].defined || c == opGAS {
@@ -515,7 +541,7 @@ func main() {
 	cov["family1_opcode_x_operands"] = s1
 	total.merge(st1)
 
-	// ---- family 3
+	// ---- family 3: call graphs
 	t3 := time.Now()
 	specs := family3Specs()
 	var tops []*txCase
@@ -540,19 +566,19 @@ func main() {
 	cov["family3_call_graphs"] = s3
 	total.merge(st3)
 
-	// ---- family 2
+	// ---- family 2: every short program
 	t2 := time.Now()
 	maxLen := run.Pick(3, 4)
 	var deadline time.Time
 	if thorough {
 		deadline = start.Add(12 * time.Minute)
 	}
-	st2 := newFamStats()
 	if !want("2") {
 		maxLen = 0
 	} else if v := os.Getenv("C10_F2LEN"); v != "" {
 		fmt.Sscan(v, &maxLen)
 	}
+	st2 := newFamStats()
 	r2 := d.runFamily2("aligned", maxLen, deadline, st2)
 	s2 := st2.summary()
 	s2["alphabet"] = len(alphabet)
@@ -565,10 +591,14 @@ func main() {
 	cov["family2_programs"] = s2
 	total.merge(st2)
 
-	// family 2 under the application's chain configuration, one length shorter
+	// family 2 under the application's chain configuration, one token shorter
 	t2b := time.Now()
 	st2b := newFamStats()
-	r2b := d.runFamily2("app", maxLen-1, deadline, st2b)
+	appLen := maxLen - 1
+	if appLen < 0 {
+		appLen = 0
+	}
+	r2b := d.runFamily2("app", appLen, deadline, st2b)
 	s2b := st2b.summary()
 	s2b["programs"] = r2b.programs
 	s2b["max_length_completed"] = r2b.maxLenCompleted
@@ -576,17 +606,33 @@ func main() {
 	cov["family2_programs_app_config"] = s2b
 	total.merge(st2b)
 
-	exhaustive := r2.maxLenCompleted == maxLen && r2b.maxLenCompleted == maxLen-1
+	// ---- report
+	var keys []string
+	for k := range d.findings {
+		keys = append(keys, k)
+	}
+	sort.Strings(keys)
+	var flist []map[string]interface{}
+	for _, k := range keys {
+		f := d.findings[k]
+		f.detail = fmt.Sprintf("%d disagreeing cases in this class; smallest: %s", f.cases, f.detail)
+		run.Report(f.sig, f.k, f.detail)
+		flist = append(flist, map[string]interface{}{"sig": f.sig, "cases": f.cases, "smallest_case": f.k.Label})
+	}
+
+	exhaustive := r2.maxLenCompleted == maxLen && r2b.maxLenCompleted == appLen
 	cov["evaluations"] = total.Compared
 	cov["cases_enumerated"] = total.Cases
 	cov["cases_excluded"] = total.Excluded
 	cov["distinct_nontrivial"] = len(total.distinct)
 	cov["outcome_classes"] = total.Classes
 	cov["disagreeing_cases"] = total.Disagreements
+	cov["disagreement_classes"] = flist
 	cov["exhaustive"] = exhaustive
 	cov["exhaustive_note"] = "family 1: full operand product for arity <= 3, pairwise-covering orthogonal array (169 tuples) + all-equal tuples for arity 4..6 (opcodes listed in family1_opcode_x_operands); family 2: every token sequence up to max_length_completed; family 3: every listed combination"
-	cov["bounds"] = map[string]interface{}{"family2_max_len": maxLen, "family2_app_config_max_len": maxLen - 1, "family2_time_cap_s": 720, "work_limit_gas_families_1_3": workLimitDefault, "work_limit_gas_family_2": workLimitShort, "ample_gas": ampleGas}
-	cov["rule"] = "a case = one transaction (pre-state, callee/creation, call data) executed on the in-tree EVM and on upstream go-ethereum v1.8.27 (Constantinople without Petersburg) in one binary; cases: (1) every opcode byte x boundary operand tuples, directly and as the callee of a STATICCALL, (2) every sequence of <= max_length tokens of a 47-token alphabet between a prologue pushing two words and an epilogue returning memory[0:64], top of stack, MSIZE and keccak(memory), x 3 call data x 2 pre-states, (3) caller {CALL,CALLCODE,DELEGATECALL,STATICCALL,CREATE,CREATE2} x value x callee {self, contracts, precompiles 1-8, nonexistent, plain account} x 19 callee bodies x 19 inner bodies, plus creation transactions; each under in-tree chain config 'aligned' (all forks at 0) and 'app' (params.MainnetChainConfig as chain/app/evm uses); distinct_nontrivial counts distinct reference outcome records (class, return data, logs, self-destructs, accounts/nonces/balances/storage, code length)"
+	cov["bounds"] = map[string]interface{}{"family2_max_len": maxLen, "family2_app_config_max_len": appLen, "family2_time_cap_s": 720,
+		"work_limit_gas_families_1_3": workLimitDefault, "work_limit_gas_family_2": workLimitShort, "ample_gas": ampleGas}
+	cov["rule"] = "a case = one transaction (pre-state, callee or creation, call data) executed on the in-tree EVM and on upstream go-ethereum v1.8.27 (Constantinople without Petersburg) in one binary; cases: (1) every opcode byte x boundary operand tuples, executed as the called contract, behind a CALL and behind a STATICCALL, (2) every sequence of <= max_length tokens of a 47-token alphabet between a prologue pushing two words and an epilogue returning memory[0:64], top of stack, MSIZE and keccak(memory), x 3 call data x 2 pre-states, (3) caller {CALL,CALLCODE,DELEGATECALL,STATICCALL,CREATE,CREATE2} x value {0,1} x callee {self, two contracts, precompiles 1-8 x 7 inputs, nonexistent, plain account} x 19 callee bodies x 19 inner bodies (depth 3) x caller balance / address collision, plus creation transactions; each under the in-tree chain configs 'aligned' (all forks at block 0) and 'app' (params.MainnetChainConfig as chain/app/evm uses it); distinct_nontrivial counts distinct reference outcome records (class, return data, logs, self-destructs, accounts/nonces/balances/storage, code length)"
 	cov["samples"] = d.samples.List()
 	run.Notes = append(run.Notes, fmt.Sprintf("wall: family1 %.1fs family3 %.1fs family2 %.1fs family2(app) %.1fs", s1["wall_s"], s3["wall_s"], s2["wall_s"], s2b["wall_s"]))
 	pprof.StopCPUProfile()
@@ -595,5 +641,6 @@ func main() {
 		"gas is not observable: refund, gas used and the value of the GAS opcode are not part of the outcome record (the property's own exception)",
 		"block context fixed (number 300, one coinbase/time/difficulty/blockhash function)",
 		"the failure class is one class: kinds of failure (stack, jump, opcode, write protection, gas) are not distinguished",
+		"the post-state is read through the StateDB interface after the end-of-transaction clean-up at every pre-state location and every location either EVM wrote; trie commitment is C11's subject",
 	})
 }
